@@ -17,8 +17,10 @@
     `p ∈ [0,1]` and every critical value `z > 0` (§5): the Wilson interval covers `p` with probability
     at least `1 − 1/z²` (`coverage_floor`, Chebyshev with the binomial variance `p(1−p)/n`), the
     interval the crate returns with probability at least `1 − 1/z² −` the mass of the outcomes it
-    rejects (`coverage_floor_crate`), and the one-sided intervals cover at least as often as the
-    two-sided one at the same critical value (`coverage_one_sided_ge`).  This is far from the
+    rejects (`coverage_floor_crate`), the one-sided intervals cover at least as often as the
+    two-sided one at the same critical value (`coverage_one_sided_ge`), and each one-sided bound is on
+    the right side of `p` with probability at least `z²/(1 + z²)` (`coverage_floor_lower_bound`,
+    `coverage_floor_upper_bound`: Cantelli's inequality, proved from the binomial mean and variance).  This is far from the
     nominal level (0.74 at z = 1.96) but it holds for all `n` and `p` at once; how close to nominal
     the coverage actually is remains a numerical fact, evaluated exactly by the driver.
 
@@ -284,6 +286,41 @@ theorem coverage_one_sided_ge (crit : Crit Rex) (l : Rex) (n k : ℕ) (p : ℝ)
     · rw [hsame.2]; linarith [hab.2]
   · rw [coversB_outside crit _ n k p hc] at h2
     exact absurd h2 (by simp)
+
+/-- **One-sided coverage floor** (Cantelli's inequality for the binomial distribution): the lower
+    confidence bound — the finite end of the upper one-sided interval `[lowerR n k z, 1]` — lies below `p`
+    with probability at least `1 − 1/(1 + z²) = z²/(1 + z²)`, for every `n ≥ 1`, `p ∈ [0, 1]`, `z > 0`
+    (sharper than the two-sided floor `1 − 1/z²`: 0.73 instead of 0.63 at `z = 1.645`). -/
+theorem coverage_floor_lower_bound (n : ℕ) (hn : 0 < n) (z p : ℝ) (hz : 0 < z) (hp0 : 0 ≤ p)
+    (hp1 : p ≤ 1) :
+    1 - 1 / (1 + z ^ 2) ≤ ∑ k ∈ Finset.range (n + 1),
+      Binomial.pmf n k p * (if lowerR n k z ≤ p then 1 else 0) := by
+  have h := Binomial.one_sided_region_mass n (Nat.pos_iff_ne_zero.mp hn) (s := 1) (by norm_num)
+    hp0 hp1 hz
+  refine le_trans h (le_of_eq (Finset.sum_congr rfl ?_))
+  intro k hk
+  have hkn : (k : ℝ) ≤ n := by exact_mod_cast Nat.lt_succ_iff.mp (Finset.mem_range.mp hk)
+  have hd := duality_lower_bound n k z p (by exact_mod_cast hn) hz.le (by positivity) hkn
+  simp only [one_mul, hd]
+
+/-- the same for the upper confidence bound (the finite end of the lower one-sided interval
+    `[0, upperR n k z]`) -/
+theorem coverage_floor_upper_bound (n : ℕ) (hn : 0 < n) (z p : ℝ) (hz : 0 < z) (hp0 : 0 ≤ p)
+    (hp1 : p ≤ 1) :
+    1 - 1 / (1 + z ^ 2) ≤ ∑ k ∈ Finset.range (n + 1),
+      Binomial.pmf n k p * (if p ≤ upperR n k z then 1 else 0) := by
+  have h := Binomial.one_sided_region_mass n (Nat.pos_iff_ne_zero.mp hn) (s := -1) (by norm_num)
+    hp0 hp1 hz
+  refine le_trans h (le_of_eq (Finset.sum_congr rfl ?_))
+  intro k hk
+  have hkn : (k : ℝ) ≤ n := by exact_mod_cast Nat.lt_succ_iff.mp (Finset.mem_range.mp hk)
+  have hd := duality_upper_bound n k z p (by exact_mod_cast hn) hz.le (by positivity) hkn
+  have e : (-1 : ℝ) * ((k : ℝ) / n - p) = p - k / n := by ring
+  simp only [e, hd]
+
+example : 1 - 1 / (1 + (2 : ℝ) ^ 2) ≤ ∑ k ∈ Finset.range (10 + 1),
+      Binomial.pmf 10 k 0.3 * (if lowerR (10 : ℕ) k 2 ≤ 0.3 then 1 else 0) :=
+  coverage_floor_lower_bound 10 (by norm_num) 2 0.3 (by norm_num) (by norm_num) (by norm_num)
 
 /-- the floor is not vacuous: `n = 10`, `p = 0.3`, `z = 2` — at least 3/4 of the mass is covered -/
 example : 1 - 1 / (2 : ℝ) ^ 2 ≤ ∑ k ∈ Finset.range (10 + 1),
